@@ -336,6 +336,86 @@ def r11_7(ctx) -> None:
               construct="JWKRegistry.key_types")
 
 
+def r11_9(ctx) -> None:
+    """use / key_ops consistency: *every* listed operation must belong to the declared use (subset, not overlap)"""
+    eng = ctx.eng
+    from .c05 import _resolve_local
+    nb = eng.prog.cls("rfc7517.models:NativeKeyBinding")
+    fn = nb.methods.get("validate_dict_key_use_operations")
+    if fn is None:
+        raise AnalysisError("validate_dict_key_use_operations vanished")
+    cfg = cfg_of(fn)
+    dp = fn.pos_params[1]
+    ops_txt = f"{fn.self_name or 'cls'}.use_key_ops_registry[{dp}['use']]"
+    kops = f"{dp}['key_ops']"
+
+    def res(e) -> str:
+        return _resolve_local(eng, fn, e)
+
+    def is_ops(e) -> bool:
+        t = res(e)
+        return t == ops_txt or t in (f"set({ops_txt})", f"frozenset({ops_txt})")
+
+    def is_kops(e) -> bool:
+        t = res(e)
+        return t == kops or t in (f"set({kops})", f"frozenset({kops})")
+    ok = False
+    why = "no test relates the members of key_ops to the operations of the declared use"
+    # (i) loop idiom
+    for L in [n for n in cfg.nodes if n.kind == "loop" and isinstance(n.ast, ast.For) and is_kops(n.ast.iter)]:
+        tv = norm(L.ast.target)
+        for t in cfg.nodes:
+            if t.kind != "test" or not isinstance(t.ast, ast.Compare) or len(t.ast.ops) != 1 or norm(t.ast.left) != tv or not is_ops(t.ast.comparators[0]):
+                continue
+            if not any(x is t.ast for x in ast.walk(L.ast)):
+                continue
+            lab = "true" if isinstance(t.ast.ops[0], ast.NotIn) else ("false" if isinstance(t.ast.ops[0], ast.In) else None)
+            if lab is None:
+                continue
+            bad = succ_by_label(cfg, t, lab)
+            if can_reach_exit(cfg, bad) or L in cfg.reachable(bad[0], [t]) if bad else True:
+                why = "an operation outside the declared use does not always raise"
+                continue
+            # every iteration evaluates the test
+            it = succ_by_label(cfg, L, "iter")
+            if all(cfg.must_pass(s0, L, [t]) for s0 in it):
+                ok = True
+            else:
+                why = "an iteration can skip the membership test"
+    # (ii) set idioms
+    for t in cfg.nodes:
+        if t.kind != "test":
+            continue
+        e = t.ast
+        lab = None
+        if isinstance(e, ast.BinOp) and isinstance(e.op, ast.Sub) and is_kops(e.left) and is_ops(e.right) and res(e.left).startswith(("set(", "frozenset(")):
+            lab = "true"
+        elif isinstance(e, ast.Call) and isinstance(e.func, ast.Attribute) and len(e.args) == 1:
+            if e.func.attr == "difference" and is_kops(e.func.value) and is_ops(e.args[0]):
+                lab = "true"
+            elif e.func.attr == "issubset" and is_kops(e.func.value) and is_ops(e.args[0]):
+                lab = "false"
+            elif e.func.attr == "issuperset" and is_ops(e.func.value) and is_kops(e.args[0]):
+                lab = "false"
+        elif isinstance(e, ast.Compare) and len(e.ops) == 1 and isinstance(e.ops[0], ast.LtE) and is_kops(e.left) and is_ops(e.comparators[0]) \
+                and res(e.left).startswith(("set(", "frozenset(")) and res(e.comparators[0]).startswith(("set(", "frozenset(")):
+            lab = "false"
+        if lab is not None and not can_reach_exit(cfg, succ_by_label(cfg, t, lab)):
+            ok = True
+    if ok:
+        # reached whenever both members are present
+        both = [t for t in cfg.nodes if t.kind == "test" and isinstance(t.ast, ast.Compare) and isinstance(t.ast.ops[0], ast.In) and const_value(t.ast.left) in ("use", "key_ops")
+                and norm(t.ast.comparators[0]) == dp]
+        rel = [t for t in cfg.nodes if (t.kind == "loop" and isinstance(t.ast, ast.For) and is_kops(t.ast.iter)) or
+               (t.kind == "test" and any(isinstance(x, (ast.Subscript,)) and norm(x) == kops for x in ast.walk(t.ast)))]
+        if both and rel:
+            ok = cfg.must_pass(cfg.entry, cfg.exit, rel, edge_filter=lambda a, b, lab, _b=both: not (a in _b and lab == "false"))
+            if not ok:
+                why = "the comparison can be skipped although both use and key_ops are present"
+    ctx.check(ok, "R11.9", fn, fn.node, fn.short, f"use / key_ops consistency is not 'every listed operation belongs to the declared use': {why} "
+              "(e.g. use=sig with key_ops=[sign, encrypt] is accepted)", "for op in key_ops: raise unless op in use_key_ops_registry[use]", construct="use/key_ops subset test")
+
+
 def r11_8(ctx) -> None:
     eng = ctx.eng
     bk = eng.prog.cls("rfc7517.models:BaseKey")
@@ -367,5 +447,6 @@ def run(ctx) -> None:
     ctx.guard(r11_6)
     ctx.guard(r11_7)
     ctx.guard(r11_8)
+    ctx.guard(r11_9)
     ctx.assume("pyca serialisation (PEM / DER / numbers) is faithful and validates points and RSA parameters")
     ctx.note("undecided remainder: equality of key material across PEM / DER / JWK for every key value")
